@@ -336,7 +336,9 @@ def rand_point(rng, L, bits=6):
         roll = rng.random()
         scale = 1 << bits
         top = int(c * scale) - 1
-        if roll < 0.25:
+        if roll < 0.08:
+            val = Fraction(0)                                   # exactly on a lower face
+        elif roll < 0.25:
             val = Fraction(rng.randint(0, min(top, 8)), scale)
         elif roll < 0.5:
             val = Fraction(rng.randint(max(0, top - 8), top), scale)
